@@ -14,7 +14,7 @@ FILES = ["src/stereomolgraph/graphs/mg.py", "src/stereomolgraph/graphs/smg.py", 
 FUNCTIONS = ["MolGraph.* (every public method)", "StereoMolGraph.*", "CondensedReactionGraph.*", "StereoCondensedReactionGraph.*"]
 BOUNDS = {"quick": "identifier universe {0,1,2} + one absent id; solver-enumerated pre-states: all graphs on it (presence x bond bits), "
                    "extra attributes, role/descriptor/change decorations (listed restrictions); per pre-state an inner finite conjunction over "
-                   "3 representation flavours x every public operation x every argument tuple over the universe; one step from every family member",
+                   "4 representation flavours (fresh, relabelled in place, composed, subgraph) x every public operation x every argument tuple over the universe; one step from every family member",
           "thorough": "same with universe {0,1,2,3} for MG/CRG, 8 flavours and all decorations for SMG/SCRG"}
 OUTSIDE = "universes > 4 identifiers; attribute values other than the sampled ones; histories whose states leave the family (closure not yet machine-checked)"
 ASSUMPTIONS = ["pre-states are built through the public API by a canonical recipe followed by one representation-changing derivation (flavour)",
@@ -95,11 +95,11 @@ def step(cls, k=3, which="mut", nflav=3, **sel):
 
 
 def step_mut3(**kw):
-    return step(k=3, which="mut", nflav=3, **kw)
+    return step(k=3, which="mut", nflav=4, **kw)
 
 
 def step_qry3(**kw):
-    return step(k=3, which="qry", nflav=2, **kw)
+    return step(k=3, which="qry", nflav=3, **kw)
 
 
 def step_mut3t(**kw):
@@ -138,7 +138,7 @@ def plan(tier, seed):
             if gl.is_reaction(cname):
                 restrict.append("role < 4")
             if gl.is_stereo(cname):
-                restrict.append("ds in (0, 1, 3, 6, 8, 9)")
+                restrict.append("ds in (0, 1, 3, 5, 6, 8, 9, 10)")
             if cname == "SCRG":
                 restrict.append("cs in (0, 3, 5, 7)")
                 restrict.append("ds in (0, 8) or cs == 0")
